@@ -12,6 +12,8 @@ for d in seeded/*/; do
   if git -C "$WT" apply --check "$PWD/$d/patch.diff" 2>/dev/null; then continue; fi
   if (cd "$WT" && patch -p1 --fuzz=3 -s --no-backup-if-mismatch < "$OLDPWD/$d/patch.diff" >/dev/null 2>&1); then
     find "$WT" -name '*.rej' -o -name '*.orig' | grep -q . && { echo "$id FAILED (rejects)"; continue; }
+    # a hunk placed by fuzz may land in the wrong place: the result must at least import
+    (cd "$WT" && PYTHONPATH="$WT/src" /venv/bin/python -c "import flowmark, flowmark.cli" >/dev/null 2>&1) || { echo "$id FAILED (does not import after fuzz)"; continue; }
     (cd "$WT" && git diff) > "$d/patch.diff"
     python3 - "$d/meta.json" <<'PY'
 import json,sys
